@@ -6,3 +6,5 @@ open SSVerif.Align
 #print axioms C04_json_hierarchy_in_time
 #print axioms C04_json_recoverStart_sound
 #print axioms C04_json_recoverDur_sound
+#print axioms C04_json_recoverStart_iff
+#print axioms C04_json_recoverDur_iff
